@@ -55,17 +55,28 @@ def check_function(case):
     if case["two_d"]:
         y = y.reshape(-1, 1)
     X = np.array(case["X"], dtype=np.float64).reshape(len(case["units"]), -1)
-    X0, y0 = X.copy(), y.copy()
-    facts = dict(name=name)
-    t = _fct.FunctionReciprocalTransformer(name)
+    xkind = case.get("xkind", "float")
+    if xkind == "int":
+        X = np.round(X).astype(np.int64)
+    elif xkind == "frame":
+        import pandas
+        X = pandas.DataFrame(X, columns=["c%d" % j for j in range(X.shape[1])])
+    X0, y0 = (X.copy(deep=True) if xkind == "frame" else X.copy()), y.copy()
+    facts = dict(name=name, xkind=xkind, callable_pair=bool(case.get("as_callables")))
+    if case.get("as_callables") and name in NUMPY:
+        # the same function given as a pair of callables: get_fct_inv() must swap them
+        t = _fct.FunctionReciprocalTransformer(NUMPY[name][0], NUMPY[name][1])
+    else:
+        t = _fct.FunctionReciprocalTransformer(name)
     r = t.fit(X, y)
     require(r is t, "fit:not-self", "", facts)
     with np.errstate(all="ignore"):
         X1, y1 = t.transform(X, y)
         inv = t.get_fct_inv()
         X2, y2 = inv.transform(X1, y1)
-    require(np.array_equal(X, X0) and np.array_equal(y, y0, equal_nan=True), "input-modified", "", facts)
-    require(np.array_equal(np.asarray(X1), X0) and np.array_equal(np.asarray(X2), X0), "features-changed", "", facts)
+    require(np.array_equal(np.asarray(X), np.asarray(X0)) and np.array_equal(y, y0, equal_nan=True), "input-modified", "", facts)
+    require(np.array_equal(np.asarray(X1), np.asarray(X0)) and np.array_equal(np.asarray(X2), np.asarray(X0)), "features-changed", "", facts)
+    require(np.asarray(X1).dtype == np.asarray(X0).dtype, "features-changed:dtype", "%s -> %s" % (np.asarray(X0).dtype, np.asarray(X1).dtype), facts)
     y2 = np.asarray(y2, dtype=np.float64)
     require(y2.shape == y.shape, "roundtrip:shape", "%r vs %r" % (y2.shape, y.shape), facts)
     require(bool(np.all(np.isnan(y2) == np.isnan(y))), "roundtrip:nan-positions", "", facts)
@@ -79,7 +90,7 @@ def check_function(case):
             float(y[ok][i]), float(np.asarray(y1, dtype=np.float64)[ok][i]), float(y2[ok][i])), facts)
     # y=None passes through
     Xn, yn = t.transform(X, None)
-    require(yn is None and np.array_equal(np.asarray(Xn), X0), "transform:none", "", facts)
+    require(yn is None and np.array_equal(np.asarray(Xn), np.asarray(X0)), "transform:none", "", facts)
     return Outcome([name, "2d" if case["two_d"] else "1d", "has-nan" if (~ok).any() else "no-nan",
                     "known-name" if name in DOMAINS else "unknown-name"], True, key=dict(case, name=name))
 
@@ -93,7 +104,8 @@ def _function_cases(draw, tier="quick"):
         units[draw(st.integers(0, n - 1))] = draw(st.sampled_from([0.0, 1.0]))
     d = draw(st.integers(1, 2))
     return dict(name_index=draw(st.integers(0, 11)), units=units, two_d=draw(st.booleans()),
-                X=[[draw(st.integers(-40, 40)) / 4.0 for _ in range(d)] for _ in range(n)])
+                X=[[draw(st.integers(-40, 40)) / 4.0 for _ in range(d)] for _ in range(n)],
+                xkind=draw(st.sampled_from(["float", "float", "int", "frame"])), as_callables=draw(st.integers(0, 3)) == 0)
 
 
 # ------------------------------------------------------------------------- permutations
@@ -199,14 +211,34 @@ def check_regressor(case):
     if not same.all():
         i = int(np.nonzero(~same)[0][0])
         raise Violation("regressor:not-inverse-of-inner-prediction", "transformer %r: predict gives %r, f^-1(inner prediction) = %r" % (name, float(got[i]), float(ref[i])), facts)
-    return Outcome([name, case["reg"], "nan-pred" if np.isnan(ref).any() else "finite"], True)
+    # the same instance reconfigured with another function name and fitted again (optionally with weights)
+    name2 = names[case.get("name_index2", 0) % len(names)]
+    f2_, finv2 = NUMPY[name2]
+    y2 = _y_from_unit(name2, case["units"][:n])
+    sw = None
+    if case.get("weights"):
+        sw = np.array(case["weights"][:n], dtype=np.float64)
+    m.set_params(transformer=name2)
+    kw = {} if sw is None else dict(sample_weight=sw)
+    m.fit(X, y2, **kw)
+    with np.errstate(all="ignore"):
+        got2 = np.asarray(m.predict(Q), dtype=np.float64)
+        ref2 = finv2(clone(reg).fit(X, f2_(y2), **kw).predict(Q))
+    same2 = np.isclose(got2, ref2, rtol=1e-12, atol=1e-12, equal_nan=True) | (np.isinf(got2) & np.isinf(ref2) & (np.sign(got2) == np.sign(ref2)))
+    if not same2.all():
+        i = int(np.nonzero(~same2)[0][0])
+        raise Violation("regressor:not-inverse-of-inner-prediction:after-refit", "second fit with transformer %r (first %r, weights %s): predict gives %r, expected %r" % (
+            name2, name, sw is not None, float(got2[i]), float(ref2[i])), dict(facts, name2=name2, weights=sw is not None))
+    return Outcome([name, case["reg"], "nan-pred" if np.isnan(ref).any() else "finite", "second=" + name2, "weights" if sw is not None else "no-weights"], True)
 
 
 @st.composite
 def _reg_cases(draw, tier="quick"):
     n = draw(st.integers(4, 20))
     d = draw(st.integers(1, 2))
-    return dict(name_index=draw(st.integers(0, 11)), units=[draw(st.integers(0, 10**6)) / 1e6 for _ in range(20)],
+    return dict(name_index=draw(st.integers(0, 11)), name_index2=draw(st.integers(0, 11)),
+                weights=draw(st.one_of(st.none(), st.lists(st.integers(1, 8).map(lambda v: v / 2.0), min_size=20, max_size=20))),
+                units=[draw(st.integers(0, 10**6)) / 1e6 for _ in range(20)],
                 X=[[draw(st.integers(-40, 40)) / 4.0 for _ in range(d)] for _ in range(n)],
                 Q=[[draw(st.integers(-40, 40)) / 4.0 for _ in range(d)] for _ in range(draw(st.integers(1, 6)))],
                 reg=draw(st.sampled_from(["linear", "tree"])))
